@@ -345,6 +345,11 @@ class Interp:
             self.write(arg_roots[NP_INPLACE[fname]], e, "buf")
         if isinstance(f, ast.Attribute) and f.attr == "at" and isinstance(f.value, ast.Attribute) and arg_roots:   # np.add.at(x, ..)
             self.write(arg_roots[0], e, "buf")
+        if isinstance(f, ast.Attribute) and f.attr == "shuffle" and arg_roots:                                      # np.random.shuffle(x), rng.shuffle(x)
+            self.write(arg_roots[0], e, "buf")
+        if lib_call and fname in ("nan_to_num",) and arg_roots and any(
+                k.arg == "copy" and isinstance(k.value, ast.Constant) and k.value.value is False for k in e.keywords):
+            self.write(arg_roots[0], e, "buf")                                                                       # np.nan_to_num(x, copy=False)
         for k in e.keywords:
             if k.arg == "inplace" and not (isinstance(k.value, ast.Constant) and k.value.value is False):
                 self.write(recv, e, "obj")
